@@ -2,8 +2,10 @@
 """Generate /verif/MANIFEST.json from the table below (keeps the manifest valid and in one place)."""
 import json, subprocess
 
-ENGINE_NAME = {"KW": "coresim (core timed-history simulation) + wholeloop (the real select! loop on a paused, seeded tokio runtime)", "KL": "coresim (core timed-history simulation) + loopsim (the same monitor at every routing decision of the real shell)", "TS": "tasksim (task-schedule simulation) + shuttlesim (thread-schedule simulation of the configuration under shuttle)", "LK": "loopsim (event-loop simulation) + coresim (the bare scheduler on generated timed histories)", "LW": "loopsim (event-loop simulation) + wholeloop (the real select! loop on a paused, seeded tokio runtime)", "L": "loopsim (event-loop simulation)", "K": "coresim (core timed-history simulation)", "T": "tasksim (task-schedule simulation)"}
+ENGINE_NAME = {"TSX": "tasksim + shuttlesim + socketsim (the real control-socket connection task on socket pairs under a seeded current-thread runtime)", "TX": "tasksim (task-schedule simulation) + socketsim (the real control-socket connection task on socket pairs under a seeded current-thread runtime)", "KW": "coresim (core timed-history simulation) + wholeloop (the real select! loop on a paused, seeded tokio runtime)", "KL": "coresim (core timed-history simulation) + loopsim (the same monitor at every routing decision of the real shell)", "TS": "tasksim (task-schedule simulation) + shuttlesim (thread-schedule simulation of the configuration under shuttle)", "LK": "loopsim (event-loop simulation) + coresim (the bare scheduler on generated timed histories)", "LW": "loopsim (event-loop simulation) + wholeloop (the real select! loop on a paused, seeded tokio runtime)", "L": "loopsim (event-loop simulation)", "K": "coresim (core timed-history simulation)", "T": "tasksim (task-schedule simulation)"}
 TECH = {
+    "TSX": "deterministic simulation with fault injection: own seeded single-thread executor interleaving control clients line by line (malformed-line faults, reference configuration model, entry-point differential), shuttle's seeded random / PCT schedulers over setter and reader threads with the configuration atomics replaced by shuttle's, and the real control-socket connection task served on socket pairs under a seeded paused-clock current-thread tokio runtime (request streams cut into arbitrary writes, unterminated last requests, half-closes, event bursts; differential against the synchronous dispatcher); seed+plan replay",
+    "TX": "deterministic simulation with fault injection: own seeded single-thread executor deciding every task interleaving at await/yield points (stalled, closed and full subscribers) with history oracles, plus the real control-socket connection task served on socket pairs under a seeded paused-clock current-thread tokio runtime (event bursts against partially written requests and half-closes; per-subscription order / at-most-once / ownership on the wire); seed+schedule / seed+plan replay",
     "KW": "deterministic simulation with fault injection: seeded timed event histories on the real sans-IO core under a virtual clock (NAK bursts, recovery ticks at every spacing and RTT velocity, resets, mode changes) with invariant monitors, plus whole-loop runs of the real run_sender_with_config on a paused-clock current-thread tokio runtime with seeded select! order, run-time mode switches and a wire-level oracle on the keepalive telemetry; seed+plan replay",
     "KL": "deterministic simulation with fault injection: seeded timed event histories on the real sans-IO core under a virtual clock (silence, ACK starvation, RTT inflation, loss bursts, resets) plus the same temporal/invariant monitor fed from every routing decision of seeded closed-loop runs on the real shell arms (virtual clock, socket seams, black holes, reloads); seed+plan replay",
     "TS": "deterministic simulation with fault injection: own seeded single-thread executor interleaving control clients line by line (malformed-line faults, reference configuration model, entry-point differential) plus shuttle's seeded random / PCT schedulers over setter and reader threads with the configuration atomics replaced by shuttle's; seed+plan replay",
@@ -88,13 +90,13 @@ P = {
    "Tick-by-tick histories for the real WeakLinkFilter::classify (bitrates idling, starving and crossing the bypass floor, one-tick RTT blips and sustained rises, queue building through real RTT-tracker samples, links joining / leaving / dropped from the tick set); a temporal monitor checks the five clauses of the statement. Temporal contract sampled over seeded histories.",
    "Trusted: the bitrate estimate is written directly; the delay tier is the one the classifier reports; permille rounding in the statement's favour.",
    "§P-C17"),
- "C18": (True, "TS", "exploration",
+ "C18": (True, "TSX", "exploration",
    "RESTRICTED CLAIM. Request-line histories from 1..4 simulated control clients (stdin-style through dispatch, socket-style through dispatch_async with a real SubscriptionContext and hub), interleaved line by line by the seeded executor, with malformed-line faults (truncation at a random offset, arbitrary bytes, non-object JSON, blank lines, wrong versions, ids of every JSON type, ill-typed / missing / extreme parameters, deep nesting); per line: no panic, response well-formedness and error class against a reference reading of the statement, echo of the applied value; after every line the configuration snapshot and a get_status answer must equal a reference model (timeout clamped to 1000..60000); every non-subscription line is also sent to the other entry point on a twin configuration and must get the same answer.",
-   "The totality clause is input-quantified over the whole JSON space: the simulator samples it through the line generator and does not enumerate it. Engine T interleaves at line granularity; the 'concurrent setters and snapshot readers' clause is decided by engine S: /repo/src/config.rs and control.rs are compiled into the simulator a second time with --cfg verif_shuttle, 2..4 setter / reader threads run under shuttle's seeded schedulers, and every observed timeout must lie in 1000..60000 and be a value some request applied (sequentially consistent interleavings only; weak-memory effects of the relaxed atomics are not modelled). A request is a JSON object with string members jsonrpc and method; other JSON may be answered -32700 or -32600 with any id; id null is treated as absent; duplicates of the four known members are not generated (JSON leaves them undefined).",
+   "The totality clause is input-quantified over the whole JSON space: the simulator samples it through the line generator and does not enumerate it. Engine T interleaves at line granularity; the 'concurrent setters and snapshot readers' clause is decided by engine S: /repo/src/config.rs and control.rs are compiled into the simulator a second time with --cfg verif_shuttle, 2..4 setter / reader threads run under shuttle's seeded schedulers, and every observed timeout must lie in 1000..60000 and be a value some request applied (sequentially consistent interleavings only; weak-memory effects of the relaxed atomics are not modelled). A request is a JSON object with string members jsonrpc and method; other JSON may be answered -32700 or -32600 with any id; id null is treated as absent; duplicates of the four known members are not generated (JSON leaves them undefined). One run in a hundred and one is an engine-X run: the real per-connection task of src/control_socket.rs (hook H12) on a socket pair, request streams cut into arbitrary writes, last request with or without newline, half-closes and event bursts; the responses must equal, in order, what the synchronous dispatcher answers to the same lines (subscription methods: id only) and the configuration must end equal.",
    "§P-C18"),
- "C20": (True, "T", "exploration",
+ "C20": (True, "TX", "exploration",
    "Seeded interleavings (uniform-random and PCT schedules on the in-tree executor, pre-emption at every await that returns Pending and at the H8 yield points inside publish and after each lock acquisition) of 1..2 publishers and 1..3 connection tasks with bounded channels of capacity 1..8 doing subscribe / unsubscribe / drain / close; in 60% of runs every subscriber-side task outside a hub critical section is stalled for good at a seeded poll. Oracles: every publish completes without any subscriber poll; per subscription topic, own id, global id uniqueness, per-publisher order and at-most-once, subscribers agree on the order of common events; nothing whose publish was invoked after an unsubscribe returned; closed subscribers pruned by the next completed publish of their topic. Seeded sampling of schedules; the schedule is recorded and replayed.",
-   "Trusted: tokio::sync::{Mutex, mpsc} internals at thread level; a task inside subscribe/unsubscribe is not stalled until it leaves the call (a slow control connection does not hold the hub lock in production either). No delivery guarantee is claimed.",
+   "Trusted: tokio::sync::{Mutex, mpsc} internals at thread level; a task inside subscribe/unsubscribe is not stalled until it leaves the call (a slow control connection does not hold the hub lock in production either). No delivery guarantee is claimed. One run in a hundred and fifty-one is an engine-X run on the real control-socket connection task (hook H12): on the wire every event belongs to a subscription of the receiving client and per subscription the publication counters strictly increase.",
    "§P-C20"),
 }
 NOT_BUILT_REASON = "no check is claimed for this property in this revision of /verif (machinery not built yet; see DESIGN.md §6 for the planned decision procedure)"
